@@ -142,7 +142,7 @@ type c11Job struct {
 func c11(args []string) {
 	c := chk.New("C11", "fault_enumeration", args)
 	c.Build(false)
-	c.Rule("(a third of the commands carry printf-style verbs or JSON-escape look-alikes (\\u0026) in an argument, a quarter are indented multi-line strings) [a chain whose first step's valid output is an empty file is among the workflows] histories that split an execution into several runs: RunTo(prefix) then Run; complete run, delete a downstream-closed set of outputs (with or without their audit files; the first run slow so that rewritten records are shorter), re-run; run killed at enumerated hook crash points, cleanup, resume; oracle: for every output the audit tree after the history equals the tree of an uninterrupted run of the same workflow (ids and times excluded), every embedded ancestor record is identical (ids included) to the ancestor's own .audit.json on disk, and loading every audit file through the library and writing it back loses nothing (in-process round trip in a copy of the directory); directed topologies with a directory output and with a gathering task that has an ordinary and a joined in-port (repeated, map order), with two differently tagged branches zipped by one process, and with a file that is tagged, processed and tagged again. distinct_nontrivial = distinct (workflow, history) in which >= 1 task was taken from disk and >= 1 task was executed in the last run")
+	c.Rule("(a third of the commands carry printf-style verbs or JSON-escape look-alikes (\\u0026) in an argument, a quarter are indented multi-line strings) [a chain whose first step's valid output is an empty file and an 11-level ladder whose last audit file has 8190 ancestor records are among the workflows] histories that split an execution into several runs: RunTo(prefix) then Run; complete run, delete a downstream-closed set of outputs (with or without their audit files; the first run slow so that rewritten records are shorter), re-run; run killed at enumerated hook crash points, cleanup, resume; oracle: for every output the audit tree after the history equals the tree of an uninterrupted run of the same workflow (ids and times excluded), every embedded ancestor record is identical (ids included) to the ancestor's own .audit.json on disk, and loading every audit file through the library and writing it back loses nothing (in-process round trip in a copy of the directory); directed topologies with a directory output and with a gathering task that has an ordinary and a joined in-port (repeated, map order), with two differently tagged branches zipped by one process, and with a file that is tagged, processed and tagged again. distinct_nontrivial = distinct (workflow, history) in which >= 1 task was taken from disk and >= 1 task was executed in the last run")
 	c.Assume("histories whose recovery does not converge (C03's known finding: kill between the renames of a multi-file task) are not judged here", "ids and absolute times of re-executed tasks are excluded from the comparison with the uninterrupted run")
 	rng := c.Rand("c11")
 	var jobs []*c11Job
@@ -226,6 +226,41 @@ func c11(args []string) {
 		}
 		jobs = append(jobs, &c11Job{kind: []string{"delete", "delete-keep-audit"}[rep%2], s: s, del: del, cfg: Cfg{Buf: 3, Procs: 2}, label: "delete the last step's outputs, re-run (an ancestor's output is an empty file)"},
 			&c11Job{kind: "runto", s: s, target: []string{"B"}, cfg: Cfg{Buf: 3, Procs: 2}, label: "RunTo B then Run (an ancestor's output is an empty file)"})
+	}
+	// a large lineage: an 11-level, two-wide, fully cross-connected ladder (every task reads both outputs of the level
+	// before; the last record holds 8190 ancestor records, its audit file is several megabytes); the last step's output
+	// and record are deleted and recomputed from the records on disk
+	{
+		levels := 11
+		ab := []spec.PortDecl{{Name: "a"}, {Name: "b"}}
+		o1 := []spec.PortDecl{{Name: "out"}}
+		s := &spec.Spec{Name: "ladder", MaxTasks: 4, Sources: map[string]string{"seed.txt": "seed\n"}}
+		s.Procs = append(s.Procs, &spec.Proc{Name: "src", Kind: spec.KFileSource, Files: []string{"seed.txt"}})
+		for _, side := range []string{"a", "b"} {
+			pn := "l1" + side
+			s.Procs = append(s.Procs, &spec.Proc{Name: pn, Kind: spec.KCmd, Cmd: spec.BuildCmd(pn, []spec.PortDecl{{Name: "in"}}, o1, nil, nil, nil), Outs: []*spec.Out{{Port: "out", Pattern: pn + ".txt"}}})
+			s.Conns = append(s.Conns, &spec.Conn{From: "src.out", To: pn + ".in"})
+		}
+		for l := 2; l <= levels; l++ {
+			for _, side := range []string{"a", "b"} {
+				pn := fmt.Sprintf("l%d%s", l, side)
+				s.Procs = append(s.Procs, &spec.Proc{Name: pn, Kind: spec.KCmd, Cmd: spec.BuildCmd(pn, ab, o1, nil, nil, nil), Outs: []*spec.Out{{Port: "out", Pattern: pn + ".txt"}}})
+				s.Conns = append(s.Conns, &spec.Conn{From: fmt.Sprintf("l%da.out", l-1), To: pn + ".a"}, &spec.Conn{From: fmt.Sprintf("l%db.out", l-1), To: pn + ".b"})
+			}
+		}
+		s.Procs = append(s.Procs, &spec.Proc{Name: "fin", Kind: spec.KCmd, Cmd: spec.BuildCmd("fin", ab, o1, nil, nil, nil), Outs: []*spec.Out{{Port: "out", Pattern: "fin.txt"}}})
+		s.Conns = append(s.Conns, &spec.Conn{From: fmt.Sprintf("l%da.out", levels), To: "fin.a"}, &spec.Conn{From: fmt.Sprintf("l%db.out", levels), To: "fin.b"})
+		exp := evalRef(s, nil)
+		if exp.Err != "" {
+			c.Broken("reference cannot evaluate the ladder: " + exp.Err)
+		}
+		var del []int
+		for i, t := range exp.Tasks {
+			if t.Proc == "fin" {
+				del = append(del, i)
+			}
+		}
+		jobs = append(jobs, &c11Job{kind: "delete", s: s, del: del, cfg: Cfg{Buf: 3, Procs: 4}, label: "delete the last output of an 11-level ladder (audit files of several megabytes), re-run"})
 	}
 	// directed topologies with outputs relative to the parent directory: RunTo a prefix, then Run
 	for _, k := range []string{"chain", "twoout", "diamond"} {
